@@ -48,6 +48,8 @@ enum Op {
     Query { t: u8 },
     /// thread t ends (its scopes unwind LIFO); a later op on t starts a fresh thread
     EndThread { t: u8 },
+    /// thread t gets a thread-local value whose destructor emits an event when the thread ends
+    ArmExitEmit { t: u8 },
 }
 
 #[derive(Clone, Debug, Serialize, Deserialize)]
@@ -139,6 +141,17 @@ impl tracing_core::Collect for DropEmitter {
     }
 }
 
+/// emits when the thread that owns it ends
+struct ExitEmitter;
+impl Drop for ExitEmitter {
+    fn drop(&mut self) {
+        emit(0);
+    }
+}
+thread_local! {
+    static AT_EXIT: std::cell::RefCell<Option<ExitEmitter>> = const { std::cell::RefCell::new(None) };
+}
+
 fn current_id() -> Option<u32> {
     dispatch::get_default(|d| d.downcast_ref::<RecCollector>().map(|r| r.0.id))
 }
@@ -217,6 +230,7 @@ fn run_case(case: &Case) -> Outcome {
     let mut active_before_global = [false; NT];
     let mut nontrivial = false;
     let mut global_attempts = 0;
+    let mut armed = [false; NT];
 
     macro_rules! fail {
         ($i:expr, $sig:expr, $($arg:tt)*) => {{
@@ -425,12 +439,40 @@ fn run_case(case: &Case) -> Outcome {
                     active_before_global[t] = true;
                 }
             }
+            Op::ArmExitEmit { t } => {
+                let t = t as usize % NT;
+                if !armed[t] {
+                    if let Err(e) = w.st.run(t, |_| AT_EXIT.with(|a| *a.borrow_mut() = Some(ExitEmitter))) {
+                        fail!(i, "panic: thread-local", "{e}");
+                    }
+                    armed[t] = true;
+                }
+            }
             Op::EndThread { t } => {
                 let t = t as usize % NT;
                 if w.st.started(t) && !w.emitters[t].iter().any(|e| *e) {
+                    if armed[t] {
+                        w.drain();
+                    }
                     w.st.finish(t);
                     w.stacks[t].clear();
                     w.emitters[t].clear();
+                    if armed[t] {
+                        armed[t] = false;
+                        // the thread's own scopes are gone by the time its thread-locals are
+                        // destroyed: the parting event belongs to the global default. Judged only
+                        // when no other thread holds a scope (with a scope open somewhere the
+                        // dispatcher has to consult the dying thread's own state, which may be gone)
+                        let logs = w.drain();
+                        if w.stacks.iter().all(|s| s.is_empty()) {
+                            let ev: Vec<(u8, usize)> = logs.iter().map(|(c, calls)| (*c, calls.iter().filter(|x| x.kind == Kind::Event).count())).filter(|x| x.1 > 0).collect();
+                            let want_ev: Vec<(u8, usize)> = w.global.filter(|c| *c != 4).map(|c| vec![(c, 1)]).unwrap_or_default();
+                            if ev != want_ev {
+                                fail!(i, "event emitted while the thread ends is not delivered to the global default", "deliveries (collector,count) {ev:?}, expected {want_ev:?}; global {:?}", w.global);
+                            }
+                            classes.push("emission_from_a_thread_local_destructor".into());
+                        }
+                    }
                     active_before_global[t] = false;
                     classes.push("thread_restart".into());
                 }
@@ -480,7 +522,8 @@ impl Property for C02 {
             8 => (t.clone(), 0u8..4).prop_map(|(t, cs)| Op::Emit { t, cs }),
             1 => (t.clone(), 0u8..4).prop_map(|(t, cs)| Op::EmitPanic { t, cs }),
             2 => t.clone().prop_map(|t| Op::Query { t }),
-            1 => t.prop_map(|t| Op::EndThread { t }),
+            1 => t.clone().prop_map(|t| Op::EndThread { t }),
+            1 => t.prop_map(|t| Op::ArmExitEmit { t }),
         ];
         let max = tier.pick(24usize, 40usize);
         // half of the cases: plain op soup. other half: prefix (scopes/emits, no global) then a
